@@ -3,25 +3,59 @@
 CFG = {
     "modules": ["HumphreyModel.Props.C08"],
     "rule": "lifecycle scripts over {S start, e/p/b execute (returning / panicking / waiting on a barrier of N), "
-            "w wait until everything submitted so far has run, T stop, D drop}, execute only after start, N in 1..4, "
-            "run on the REAL ThreadPool on real threads in child processes with the H3 tracer installed and "
-            "seed-chosen yields / 0-200 us sleeps at the hook points; exhaustive block: N 1..4 x 0..6 executes x every "
-            "panicking subset x with/without stop, plus never-started pools; random block adds settle points, barrier "
-            "tasks and stop positions. Each run has a 2 s watchdog (WEDGED). The event log of each run is replayed "
-            "through the Lean transition system (a rejected event = model/implementation disagreement); the "
-            "end-of-run summary (per-task run counters, workers exited, caller returned, barrier reached) is compared "
-            "with the model's end state and judged by the spec. Non-trivial = started pool with >=1 task; distinct = "
-            "distinct (script, event log).",
+            "h/x execute a HELD task (blocks until the caller opens the gate with o, then returns / panics: a task still "
+            "running when the pool is stopped, started again or dropped), w wait until everything submitted so far has "
+            "run, W = w and every panic begun so far has been answered by a replacement worker, T stop, D drop}, execute "
+            "only after start; a task letter may carry a repeat count (e1000). Run on the REAL ThreadPool on real "
+            "threads in child processes with the H3 tracer installed and seed-chosen yields / 0-200 us sleeps at the "
+            "hook points. Single-run blocks (as before): exhaustive N 1..4 x 0..6 executes x every panicking subset x "
+            "with/without stop, never-started pools, monitor x panic payload block, 20 000 (thorough 200 000) random "
+            "scripts with settle points, barrier tasks and stop positions. RESTART blocks (the pool started more than "
+            "once): R1 every pair of bodies over {e,p} of length 0..2 around one T S, first run settled (w/W) or not, with "
+            "/ without a final stop, N 1..3 (798 scripts); R2 tasks of the first run still held or queued behind a held "
+            "task across T S / S S (started twice without stop) / T T S, released before, during or after the second "
+            "run's work (quick tasks, panics, a barrier group of N) or only after drop, drop with and without a final "
+            "stop (5 832); R3 2,3,4,5,8,10,30,100 (thorough also 300, 1000) runs of the same kind each, among them a "
+            "held task of every run that panics only after the next start (468; thorough 540); R4 4 000 (thorough 60 000) "
+            "random scripts of 1..6 runs over all letters incl. monitors, all panic payloads, barrier groups in later "
+            "runs. LARGE blocks: every worker held and c = 1..20, 31..33, 63..65 tasks queued behind (208); for N in "
+            "{1,2,4} (thorough {1,2,3,4,8,16}) and c in {100,128,255,256,257,1000,1024} (thorough also 512, 2048, 4096, "
+            "8192, 10 000): c quick tasks with drop / stop+drop / settle / barrier of N afterwards, mixed with c/4 panics, "
+            "c tasks queued behind N held workers then released / dropped / stopped, c tasks across a restart, c PANICS "
+            "(then a barrier of N), c panics in each of two runs (294; thorough 960); very large: 4 096, 10 000, 65 536, "
+            "100 000 tasks (thorough up to 262 144, 1 000 000, 1 048 576); wide pools N in {5,8,16,64} (thorough "
+            "{5,6,8,16,32,64,128}): all workers busy / panicking / held, barrier of N, also in the run after a restart "
+            "and after held tasks of the first run panic (24; thorough 42). Every wait is a QUIESCENCE timeout (what is "
+            "waited for has not happened and no pool event has been reported for 1.2-2 s; WEDGED = the caller is not back "
+            "and nothing has moved for 2 s), so long scripts are not cut off and a deadlock costs 2 s; a run during which "
+            "the machine starved the child process (heartbeat thread delayed > 250 ms, or > 25 % of the run) is repeated "
+            "alone. A verdict that rests on time (WEDGED, a wait given up, workers not exited yet, child died) is "
+            "CONFIRMED by running the script again on its own, up to 3 times: the first repetition that fails again is "
+            "reported; one that does not fail again in 3 undisturbed runs is put down to the machine and listed in the "
+            "evidence (time_dependent_verdicts_rerun); after two confirmed failures the rest is reported unconfirmed. "
+            "A task run twice or a rejected log is reported as it is. For scripts inside the model (at most one start, at most one stop, <= 5 000 tasks) the event log is "
+            "replayed through the Lean transition system (a rejected event = model/implementation disagreement) and the "
+            "end-of-run summary (per-task run counters, workers exited, caller returned, barrier reached, settle reached) "
+            "is compared with the model's end state and judged by the spec. Scripts OUTSIDE the model (more than one "
+            "start or stop: the transition system and its theorems describe ONE run; worker ids are reused by every run) "
+            "carry no model comparison and are judged by the executable spec alone on the IMPLEMENTATION's summary and "
+            "log: every task run exactly once (counters and log), every panic unwound one worker which reported itself "
+            "and was replaced exactly once, N workers exited per start, drop returned, every barrier group of N was "
+            "reached, every W was reached. Above 5 000 tasks the log is not kept (summary alone). Non-trivial = started "
+            "pool with >=1 task; distinct = distinct (script, event log).",
     "exhaustive": True,
-    "violation_text": "the pool did not do what C08 demands on this lifecycle script: the caller never came back from "
-                      "drop (WEDGED), a task ran not exactly once, not every worker exited after drop, or N tasks "
-                      "could not run at the same time",
-    "trusted_base": ["Spec/Pool.lean: View, ExactlyOnce, AtMostN, Fifo, AllDone, Summary.ok",
+    "violation_text": "the pool did not do what C08 demands on this lifecycle script: the caller never came back "
+                      "(WEDGED), a task ran not exactly once, not every worker of every run exited after drop, N tasks "
+                      "could not run at the same time, or a panic was never answered by a replacement worker "
+                      "(settle=timeout)",
+    "trusted_base": ["Spec/Pool.lean: View, ExactlyOnce, AtMostN, Fifo, AllDone, Summary.ok, LogCounts.ok",
                      "std::sync::mpsc FIFO/blocking semantics, Mutex, unwinding running Drop, JoinHandle::join are "
                      "modelled, not verified",
                      "the H3 event log is a linearisation of the run (acquisitions logged after, releases/sends/"
                      "spawns before the real operation, under one global mutex)"],
-    "assumptions": ["one thread owns the pool (start/execute/stop/drop are sequential); start is called at most once",
+    "assumptions": ["one thread owns the pool (start/execute/stop/drop are sequential)",
+                    "THEOREMS: start is called at most once (the transition system has one run). Scripts that start the "
+                    "pool again are covered by testing only: executable spec predicates on the real pool's summary and log",
                     "scheduler: an enabled step is eventually taken (needed only to read termination as liveness)",
                     "the recovery thread is detached, not ended: it stays blocked on its channel for the life of the "
                     "process (as after stop() in the original code)"],
@@ -31,7 +65,9 @@ CFG = {
                   "Model/Pool.lean): exactly_once, at_most_N_running, N_can_run, panic_isolated, fifo_dequeue; every "
                   "step other than submit decreases a measure (termination); terminal_all_done; drop_never_blocks; "
                   "drop_without_stop_deadlocks_unrepaired for the code before the repair. The model is tied to the "
-                  "code by trace acceptance of real event logs.",
+                  "code by trace acceptance of real event logs. The theorems cover ONE run of the pool (start at most once); "
+                  "lifecycle scripts that start the pool again (restart, several restarts, started twice) are outside the "
+                  "model: they are run on the real pool and judged by the executable spec predicates only (testing level).",
     "level_note": "Proof of the protocol; partial for OS-level liveness (the logs show only the schedules the OS and "
                   "the perturbation produced). Trusted: Lean kernel, Spec/Pool.lean, the std primitives' semantics as "
                   "modelled, the hook's linearisation argument, the harness.",
